@@ -28,6 +28,8 @@ FUNCS = {'bootstrap_sample': ('rdm', 'pattern'), 'bootstrap_sample_rdm': ('rdm',
 def run(ctx, obs):
     from ..rules import sweeps
     sweeps.run(ctx, obs, 'C09')
+    from ..rules import order as _ord
+    _ord.report(ctx, obs, ['rdm.rdms.', 'inference.bootstrap.', 'util.descriptor_utils.'])
     for fn, kinds in FUNCS.items():
         draws(ctx, obs, B + fn, kinds)
     nan_placement(ctx, obs)
